@@ -56,7 +56,8 @@ CHECKS = {
         "model of run_plan_with_hint (double common-prefix test, step back to a log with checkpoints, reload, re-extract with "
         "every-10th checkpoint retention) returns exactly the extraction of the full run, also when the hint is itself an "
         "incremental output; the model is executed in Coq on play tables recorded from run_plan/run_plan_with_hint and must "
-        "reproduce their responses; the JSON equality itself is checked on the implementation for every generated edit.",
+        "reproduce their responses; the JSON equality itself is checked on the implementation for every generated edit. run_plan_with_hint itself is regenerated from api/base.py on every run (tools/tr_hint.py: prefix loop, step-back loop, slices); "
+        "Props/C04_hint_src.v proves the generated function equal to the model's run_hint and restates C04 for it.",
    note="Trusted as C01 plus: response fields other than events/clock/action/checkpoint are functions of the checkpoint "
         "(checked per run); plan parsing/YAML/environment construction outside the model.",
    technique="Coq proof over the engine+api model + trace-driven correspondence on edit chains",
